@@ -1,6 +1,11 @@
 // C11 harness: builds a rule set from the case line, scans with a scripted callback and prints
 // the ordered message list + return code of every scan (format: see lean/Driver/Cb.lean).
 #include "common.h"
+#include <sys/prctl.h>
+#include <sys/wait.h>
+#include <signal.h>
+#include <unistd.h>
+#include <fcntl.h>
 
 #define MAXITEMS 512
 #define SRCMAX 65536
@@ -68,6 +73,7 @@ static void atom_text(const char* a, char* cond, size_t* co, char* strs, size_t*
   case 'F': *co += snprintf(cond + *co, SRCMAX - *co, "false"); break;
   case 'U': *co += snprintf(cond + *co, SRCMAX - *co, "uint8(100000) == 1"); break;   // undefined on every test buffer
   case 'z': *co += snprintf(cond + *co, SRCMAX - *co, "filesize > %s", a + 1); break;
+  case 'y': *co += snprintf(cond + *co, SRCMAX - *co, "filesize < %s", a + 1); break;
   case 'r': *co += snprintf(cond + *co, SRCMAX - *co, "r%s", a + 1); break;
   case 'x': *co += snprintf(cond + *co, SRCMAX - *co, "not r%s", a + 1); break;
   case 's': case 'n': case 'c':       // $s / not $s / #s > N  (c<N>_<hex>)
@@ -123,6 +129,50 @@ static void rule_text(char* src, size_t* off, int idx, const char* kind, char* c
                    strchr(kind, 'g') ? "global " : "", strchr(kind, 'p') ? "private " : "", idx,
                    nstr ? " strings:" : "", strs, cond);
 }
+
+// ---- scan kinds other than yr_scanner_scan_mem
+// a single-block iterator over the buffer; `file_size` is NULL for kind 'b' (filesize undefined), a function for kind 'B'
+typedef struct { YR_MEMORY_BLOCK blk; const uint8_t* data; size_t size; } ONEBLK;
+static const uint8_t* ob_fetch(YR_MEMORY_BLOCK* b) { return ((ONEBLK*) b->context)->data; }
+static YR_MEMORY_BLOCK* ob_first(YR_MEMORY_BLOCK_ITERATOR* it)
+{
+  ONEBLK* o = (ONEBLK*) it->context;
+  o->blk.size = o->size; o->blk.base = 0; o->blk.context = o; o->blk.fetch_data = ob_fetch;
+  it->last_error = ERROR_SUCCESS;
+  return &o->blk;
+}
+static YR_MEMORY_BLOCK* ob_next(YR_MEMORY_BLOCK_ITERATOR* it) { it->last_error = ERROR_SUCCESS; return NULL; }
+static uint64_t ob_size(YR_MEMORY_BLOCK_ITERATOR* it) { return ((ONEBLK*) it->context)->size; }
+
+// a small process for yr_scanner_scan_proc: one per harness process, dies with it. What its memory contains is not
+// known to the model: the process scan is only a step of the history, its messages are not printed.
+static pid_t vf_child = 0;
+static void kill_child(void) { if (vf_child > 0) { kill(vf_child, SIGKILL); waitpid(vf_child, NULL, 0); vf_child = 0; } }
+static pid_t get_child(void)
+{
+  if (vf_child > 0) return vf_child;
+  fflush(stdout);
+  vf_child = fork();
+  if (vf_child == 0)
+  {
+    prctl(PR_SET_PDEATHSIG, SIGKILL);
+    int nul = open("/dev/null", O_RDWR); dup2(nul, 0); dup2(nul, 1); dup2(nul, 2);
+    execlp("sleep", "sleep", "100000", (char*) NULL);
+    _exit(127);
+  }
+  atexit(kill_child);
+  // wait until the child has become `sleep` (before the exec it is a copy of this sanitized process)
+  for (int i = 0; i < 2000; i++)
+  {
+    char p[64], cmd[32] = {0};
+    snprintf(p, sizeof p, "/proc/%d/cmdline", (int) vf_child);
+    FILE* f = fopen(p, "r");
+    if (f) { size_t n = fread(cmd, 1, sizeof cmd - 1, f); fclose(f); if (n >= 5 && !strncmp(cmd, "sleep", 5)) break; }
+    usleep(5000);
+  }
+  return vf_child;
+}
+static int quiet_cb(YR_SCAN_CONTEXT* ctx, int msg, void* data, void* ud) { return CALLBACK_CONTINUE; }
 
 static const char* kvget(char** toks, int n, const char* key)
 {
@@ -191,14 +241,33 @@ int main()
       char* ss[128]; int nss = splitc(scripts, '/', ss, 128);
       for (int k = 0; k < nss; k++)
       {
-        CB cb = {strcmp(ss[k], "-") ? ss[k] : "", 0};
+        // scan kind: "p" = process scan (history step only), "b:<script>" / "B:<script>" = block iterator without /
+        // with a file_size function, otherwise yr_scanner_scan_mem
+        char kind = 'm'; char* script = ss[k];
+        if (!strcmp(script, "p")) kind = 'p';
+        else if ((script[0] == 'b' || script[0] == 'B') && script[1] == ':') { kind = script[0]; script += 2; }
+        CB cb = {strcmp(script, "-") ? script : "", 0};
         uint8_t* buf = bufs[k % nbufs]; size_t blen = blens[k % nbufs];
         if (k) printf(" |");
-        if (api == 'r') rc = yr_rules_scan_mem(rules, buf, blen, flags, scan_cb, &cb, 0);
+        if (kind == 'p')
+        {
+          if (api == 'r') yr_rules_scan_proc(rules, (int) get_child(), flags, quiet_cb, NULL, 0);
+          else { yr_scanner_set_callback(sc, quiet_cb, NULL); yr_scanner_scan_proc(sc, (int) get_child()); }
+          printf(" PROC");
+          continue;
+        }
+        ONEBLK ob; YR_MEMORY_BLOCK_ITERATOR it;
+        memset(&ob, 0, sizeof ob); memset(&it, 0, sizeof it);
+        ob.data = buf; ob.size = blen;
+        it.context = &ob; it.first = ob_first; it.next = ob_next; it.file_size = kind == 'B' ? ob_size : NULL;
+        it.last_error = ERROR_SUCCESS;
+        if (api == 'r')
+          rc = kind == 'm' ? yr_rules_scan_mem(rules, buf, blen, flags, scan_cb, &cb, 0)
+                           : yr_rules_scan_mem_blocks(rules, &it, flags, scan_cb, &cb, 0);
         else
         {
           yr_scanner_set_callback(sc, scan_cb, &cb);
-          rc = yr_scanner_scan_mem(sc, buf, blen);
+          rc = kind == 'm' ? yr_scanner_scan_mem(sc, buf, blen) : yr_scanner_scan_mem_blocks(sc, &it);
         }
         printf(" rc=%s", errname(rc));
       }
